@@ -7,38 +7,8 @@
      sver t = value of ver when thread t last loaded the counter word.
    Any number of threads, any programs, any schedule, immediate node reuse. *)
 From Coq Require Import List ZArith Lia Bool Arith.
-From LF Require Import Conc Lifo.
+From LF Require Import Conc DcasLib Lifo.
 Import ListNotations.
-
-(* ---------- list segments through the [next] fields ---------- *)
-Fixpoint chain (nx : nat -> nat) (h : nat) (L : list nat) : Prop :=
-  match L with
-  | [] => h = 0
-  | a :: r => h = a /\ a <> 0 /\ chain nx (nx a) r
-  end.
-
-Lemma chain_upd nx n v L : forall h, ~ In n L -> chain nx h L -> chain (upd nx n v) h L.
-Proof.
-  induction L as [|a r IH]; intros h Hn C; cbn in *; auto.
-  destruct C as (E & Z & C). repeat split; auto.
-  rewrite upd_other by (intros ->; apply Hn; auto). apply IH; auto.
-Qed.
-
-Lemma chain_zero nx L : chain nx 0 L -> L = [].
-Proof. destruct L; cbn; auto. intros (E & Z & _). congruence. Qed.
-
-Lemma chain_cons_inv nx h L : chain nx h L -> h <> 0 -> exists r, L = h :: r /\ chain nx (nx h) r.
-Proof. destruct L; cbn; [congruence|]. intros (E & Z & C) _. subst. eauto. Qed.
-
-Lemma chain_head_in nx h L : chain nx h L -> h <> 0 -> In h L.
-Proof. intros C Z. destruct (chain_cons_inv _ _ _ C Z) as (r & -> & _). left; auto. Qed.
-
-Lemma nodup_remove (y : nat) l : NoDup l -> NoDup (remove Nat.eq_dec y l).
-Proof.
-  induction 1 as [|a l Hn Hd IH]; cbn; [constructor|].
-  destruct (Nat.eq_dec y a); auto. constructor; auto.
-  intros Hi. apply in_remove in Hi. tauto.
-Qed.
 
 (* ---------- the instrumented machine ---------- *)
 Inductive hev := HPush (t n : nat) | HPop (t n : nat) | HEmpty (t : nat).
